@@ -205,11 +205,19 @@ func WithTxReadClosers(ctx context.Context, db Database, opts *sql.TxOptions, fn
 	}
 
 	for i := range readers {
+		// A reader may be closed more than once (io.Closer leaves that to the
+		// implementation); only its first Close may count towards releasing
+		// the transaction, otherwise a repeated Close of one reader rolls the
+		// transaction back underneath the readers that are still open.
+		var once sync.Once
 		readers[i] = ioutils.NewReadCloserWithCloseHook(readers[i], func() error {
-			if atomic.AddInt64(&remaining, -1) == 0 {
-				return tx.Rollback(ctx)
-			}
-			return nil
+			var err error
+			once.Do(func() {
+				if atomic.AddInt64(&remaining, -1) == 0 {
+					err = tx.Rollback(ctx)
+				}
+			})
+			return err
 		})
 	}
 	return readers, nil
